@@ -199,6 +199,31 @@ func c08Verbatim(c *Ctx, p *Prog, rule string) {
 // rangesWhole: idx is the index variable of a `for i := range x` loop over the
 // whole slice x: phi[-1, idx] + 1 compared with len(x).
 func rangesWhole(idx ssa.Value, x ssa.Value) bool {
+	// the index loop: i = phi(0, i+1), guarded by i < len(x)
+	if ph, ok := unspill(idx).(*ssa.Phi); ok {
+		okInit, okStep := false, false
+		for _, e := range ph.Edges {
+			if k, ok := intConst(e); ok && k == 0 {
+				okInit = true
+			} else if b, ok := unspill(e).(*ssa.BinOp); ok && b.Op == token.ADD && unspill(b.X) == ssa.Value(ph) {
+				if k, ok := intConst(b.Y); ok && k == 1 {
+					okStep = true
+				}
+			}
+		}
+		if okInit && okStep && len(ph.Edges) == 2 {
+			for _, r := range *ph.Referrers() {
+				if cmp, ok := r.(*ssa.BinOp); ok && cmp.Op == token.LSS && cmp.X == ssa.Value(ph) {
+					if lc, _ := callOf(unspill(cmp.Y)); lc != nil && len(lc.Common().Args) == 1 && unspill(lc.Common().Args[0]) == x {
+						if bi, isB := lc.Common().Value.(*ssa.Builtin); isB && bi.Name() == "len" {
+							return true
+						}
+					}
+				}
+			}
+		}
+		return false
+	}
 	b, ok := unspill(idx).(*ssa.BinOp)
 	if !ok || b.Op != token.ADD {
 		return false
